@@ -20,6 +20,8 @@ openmatrix   one call of open_raw / open_unicode in a world where chosen opens f
 kpse         open_raw / open_unicode / parse_file with NOTHING patched: real temporary files and a kpsewhich program of
              our own first on PATH (driver op openmatrix).
 pathfn       os.path.splitext, posixpath.join.
+modfile / openx / guard   see props/c17_ext.py: every kind of `file` argument of database.parse_file / to_file; pybtex.io when io.open /
+             Popen raise exceptions that are not EnvironmentErrors; the isinstance guards of BaseParser.parse_string / parse_bytes.
 """
 import contextlib
 import errno
@@ -36,9 +38,10 @@ from unittest import mock
 import compat
 import bibgen
 from props.base import corpus_for
+from props import c17_ext as X
 
 ID = 'C17'
-LEAN_MODULES = ['PybtexModel.Props.C17', 'PybtexModel.Props.WiringC17']
+LEAN_MODULES = ['PybtexModel.Props.C17', 'PybtexModel.Props.WiringC17', 'PybtexModel.Props.C17x']
 THEOREMS = {
     'C17_parse_entry_points': 'BaseParser (both unicode_io values; BibTeX; BibTeXML after fix C17-4), codec and parsing core abstract: IF dec(enc s) = s, the name IS AN EXISTING FILE '
                               '(hfile), the one open call succeeds on a file holding enc s, AND for unicode_io classes s CONTAINS NO CARRIAGE RETURN (hnl), THEN parse_bytes(enc s) = '
@@ -86,6 +89,21 @@ THEOREMS = {
     'C17_kpsewhich': 'pybtex.kpathsea.kpsewhich for every behaviour of the program: cannot be started -> pybtex error for the name, nothing opened; non-zero exit -> the name '
                      'itself is opened; exit 0 -> the printed bytes minus trailing ASCII white space are opened as a bytes path (the name itself if nothing is left)',
     'C17_fallback_path': 'posixpath.join(dir, name) is dir/name for a relative name (dir non-empty, no trailing slash); an absolute name is retried unchanged',
+    'C17_module_file_argument': 'database.parse_file / BibliographyData.to_file (code WITH fix C17-x1), every table, registry and format argument: a file-like object whose '
+                                'name is the str p selects what the path p selects = find_plugin(group, format, filename=p) [model wiring]; a bytes path and a file-like object '
+                                'whose name is absent, bytes or an int (descriptor number) select what an unnamed stream selects, find_plugin(group, format)',
+    'C17_module_file_argument_tables': 'regenerated tables, no format given: every file argument without a str name (bytes path; name absent / bytes / ANY int) gets the default plug-in = '
+                                       'the class the name bibtex selects, never an error; a file-like object named dir/stem.sfx gets, for every installed suffix entry, the class '
+                                       'of the suffix, which SOME format name selects too (existential, as C17_module_functions)',
+    'C17_open_general_refines': 'pybtex.io._open modelled over a world whose io.open / Popen may raise ANY exception (EnvX): on worlds where every failure is an EnvironmentError '
+                                'it makes the same attempts in the same order and returns the same handle / PybtexError as the model of C17_open_faults / C17_kpsewhich',
+    'C17_open_foreign_exceptions': 'EVERY world (no assumption on what io.open / Popen raise): a PybtexError built by _open carries the name given; a file-like object passes through; '
+                                   'an exception that is not an EnvironmentError leaves unconverted at the call that raised it: first write attempt -> one attempt, no TEXMFOUTPUT '
+                                   'fall-back; EnvironmentError first + foreign exception at the fall-back attempt -> the foreign one leaves after the two attempts; read: from the one '
+                                   'open call, or from starting kpsewhich (nothing opened); and a foreign exception that leaves was raised by some io.open call or by Popen',
+    'C17_parse_guards': 'BaseParser.parse_string(bytes) / parse_bytes(str) raise the ValueError with the message of the source whatever core, codec and database are, and on '
+                        'a value of the right type are parseString / parseBytes [model wiring]; IF dec(enc s) = s THEN parse_bytes(enc s) = parse_string(s) through the guards '
+                        'for both unicode_io values of a class overriding parse_stream only',
 }
 RULE = ('entry points: a fixed set of hand-made databases x every installed reader/writer name and alias + two synthetic third-party plug-ins (unicode_io True / False, '
         'registered at run time) x encodings {default, utf-8, utf-16, latin-1, alias spellings utf8 / UTF8 / U8 / L1, utf-8-sig, utf-16-le, utf-32, cp1252, iso-8859-15, '
@@ -94,7 +112,10 @@ RULE = ('entry points: a fixed set of hand-made databases x every installed read
         'over a 14-call alphabet with 8 probes after each call, error calls, every installed entry; open matrix: every combination of {isfile, kpsewhich program: exit 1 / '
         'found / empty / cannot start / no newline / trailing white space / output but exit 1 / killed / non-ASCII path, open fails at name / at found / at fall-back, '
         'TEXMFOUTPUT unset/dir/dir-slash/empty, relative/nested/absolute name, raw/unicode, file-like}; real files + a kpsewhich program of our own on PATH; '
-        'splitext over {a . /}^<=6, join over {a /}^<=3 pairs; non-trivial = anything but a skipped case; distinct by case JSON')
+        'splitext over {a . /}^<=6, join over {a /}^<=3 pairs; module-level parse_file / to_file x {no format, every installed name, one alias} x every kind of '
+        'file argument (str / bytes path, memory stream, TemporaryFile, open(str), open(bytes), open(fd), name attribute None / "" / str / int / bytes) x every '
+        'installed suffix + lookup errors; 336 worlds whose io.open / Popen raise non-EnvironmentErrors at the first / fall-back / located attempt or when starting '
+        'kpsewhich; parse_string / parse_bytes with a str and a bytes value on 5 reader classes x 3 encodings; non-trivial = anything but a skipped case; distinct by case JSON')
 TRUSTED = ['codecs, TextIOWrapper, the file system, subprocess + /bin/sh (kpse family), PyYAML, xml.sax / ElementTree, latexcodec: exercised for real, never modelled',
            'importlib.metadata.entry_points is memoised per argument tuple inside the harness process (a pure function of the installed metadata; 3 ms per call otherwise)',
            'probe subclasses of the real plug-in classes replace ONLY the plug-in core (parse_stream / the text parser) to record what the '
@@ -110,8 +131,13 @@ ASSUMPTIONS = ['POSIX: writing to a text-mode file translates nothing (os.linese
                'BibTeXML writer: the characters _PrettyXMLWriter sends through the XMLGenerator are an abstract parameter (WriterCore.xmlBody); that this body is '
                'strip(body) followed by exactly one newline is hypothesis hshape of C17_write_entry_points_bibtexml (needed: _shape_neg; without it: _body), and that the '
                'hard-wired UTF-8 codec round-trips the body is hypothesis hutf8; both are exercised by the correspondence on every BibTeXML case, never proved',
-               'failures of io.open and of starting kpsewhich are EnvironmentErrors (IOErr): the only failures pybtex.io converts; an unknown encoding name (LookupError) or a '
-               'ValueError from io.open propagates unconverted in the code and has no representation in the model',
+               'C17_open_faults / C17_kpsewhich: failures of io.open and of starting kpsewhich are EnvironmentErrors (IOErr), the only failures pybtex.io converts. Since the '
+               'extension the general world EnvX (Model/IOArgs.lean) also has exceptions of any other class (LookupError of an unknown encoding name, ValueError ...): they '
+               'leave unconverted at the call that raised them (C17_open_foreign_exceptions; family openx), and EnvX restricted to EnvironmentErrors is Env '
+               '(C17_open_general_refines). The oracle demands nothing for them (argument errors, not failures to open a file)',
+               'module-level parse_file / to_file: the model follows /repo WITH proposed fix C17-x1 (a `name` attribute that is not a str -- the descriptor number of '
+               'tempfile.TemporaryFile() / open(fd), the bytes name of open(b"...") -- is not a file name to guess the format from); on a tree without it the check reports '
+               'those calls (TypeError) as failing inputs of the modfile family. A bytes PATH is not used for guessing either (code as it is: isinstance(file, str))',
                'parse_file = parse_string needs CR-free text for unicode_io readers (C17_parse_entry_points hnl); otherwise the relation is univNl (C17_parse_file_newlines)',
                'BibTeXML reader: the model follows /repo WITH proposed fix C17-4 (the reader decodes with the encoding it was given); "ElementTree ignores an XML '
                'declaration inside a str" is hypothesis hdecl of C17_parse_entry_points_bibtexml, exercised by the correspondence']
@@ -1176,6 +1202,8 @@ def impl_pathfn(case):
 
 def impl(case):
     op = case['op']
+    if op in X.OPS:
+        return X.impl(case)
     if op == 'entrypoints':
         return impl_entrypoints(case)
     if op == 'plughist':
@@ -1190,6 +1218,8 @@ def impl(case):
 
 
 def to_request(case):
+    if case['op'] in X.OPS:
+        return X.to_request(case)
     if case['op'] == 'entrypoints':
         return req_entrypoints(case)
     if case['op'] == 'kpse':
@@ -1216,6 +1246,8 @@ def model_out(case, reply):
     op = case['op']
     if 'pong' in reply:
         return {'skip': True}
+    if op in X.OPS:
+        return X.model_out(case, reply)
     if op == 'entrypoints':
         if 'pong' in reply:
             return {'skip': True}
@@ -1248,6 +1280,8 @@ def compare_view(io):
     """The part of the implementation's output the model predicts."""
     if isinstance(io, dict) and 'skip' in io:
         return {'skip': True}
+    if isinstance(io, dict) and (io.get('modfile') or io.get('openx')):
+        return X.compare_view(io)
     if isinstance(io, dict) and 'paths' in io:
         return io['paths']
     if isinstance(io, dict) and 'kpse' in io:
@@ -1309,6 +1343,8 @@ def _short(x, n=160):
 def oracle(case, io, reply):
     op = case['op']
     fails = []
+    if op in X.OPS:
+        return X.oracle(case, io, reply)
     if op == 'pathfn':
         return fails
     if op == 'plughist':
@@ -1518,6 +1554,8 @@ def _op_short(o):
 
 def buckets(case, io):
     op = case['op']
+    if op in X.OPS:
+        return X.buckets(case, io)
     if op == 'entrypoints':
         if isinstance(io, dict) and 'skip' in io:
             return ['entrypoints:skip:' + io['skip'].split(':')[0]]
@@ -1563,6 +1601,8 @@ def _valid_world(w):
 
 
 def valid_case(c):
+    if c.get('op') in X.OPS:
+        return X.valid_case(c)
     if c.get('op') == 'plughist':
         return isinstance(c.get('ops'), list) and all(isinstance(o, dict) and o.get('o') in ('register', 'find', 'enum') and
                                                       (o['o'] != 'register' or (o.get('k') in ('K1', 'K2', 'K3') and isinstance(o.get('force'), bool)))
@@ -1911,9 +1951,12 @@ def gen_cases(tier, rng, info):
     cases += gen_openmatrix(info)
     cases += gen_kpse(info)
     cases += gen_plughist(tier, rng, info)
+    cases += X.gen_modfile(info)
+    cases += X.gen_openx(info)
+    cases += X.gen_guard(info)
     cases += gen_entrypoints(tier, rng, info)
     info['exhaustive'] = True
-    info['scope'] = '; '.join(info.pop(k) for k in ('scope_entry', 'scope_plug', 'scope_open', 'scope_kpse', 'scope_path'))
+    info['scope'] = '; '.join(info.pop(k) for k in ('scope_entry', 'scope_plug', 'scope_open', 'scope_kpse', 'scope_path', 'scope_modfile', 'scope_openx', 'scope_guard'))
     return cases
 
 
@@ -1934,10 +1977,11 @@ LEVEL_NOTE = ('PARTIAL by nature. MODELLED and proved: which core function each 
               'printing cores (BibTeX reader/writer, PyYAML, xml.sax, ElementTree: "ElementTree ignores the XML declaration inside a str" is hypothesis hdecl), the '
               'kpsewhich program, os.environ, importlib.metadata (its answer is regenerated into Gen/Plugins.lean and compared with setup.py; stale metadata breaks '
               'the build), latexcodec. Not covered: undecodable bytes handed to parse_bytes (UnicodeDecodeError by design of the API), streams of the wrong kind '
-              '(text stream to a byte plug-in), failures of io.open other than EnvironmentError (Env.opener returns Except IOErr: a LookupError for an unknown encoding name or a '
-              'ValueError cannot be represented, so "every failure is the PybtexError for the name given" quantifies over EnvironmentErrors only), the shape of the pretty-printed '
+              '(text stream to a byte plug-in), the shape of the pretty-printed '
               'XML body (hypothesis hshape, see ASSUMPTIONS), newline translation on non-POSIX platforms, concurrent modification of the registry. The model follows /repo WITH '
               'proposed fixes C17-1 (plugin), C17-2 (YAML plug-ins honour `encoding`), C17-3 (BibTeXML parse_string), C17-4 (BibTeXML reader decodes with the encoding '
               'it was given: proposed_fixes/C17-4.*; on a tree without it the check reports the BibTeXML byte / file entry points under e.g. encoding utf8 as a '
-              'failing input). Recorded boundary (finding C17-empty-document-bom, C17_write_file_partial / _neg): for an EMPTY document written without any write '
+              'failing input) and C17-x1 (parse_file / to_file take only a str `name` of a file object for a file name: proposed_fixes/C17-x1.*; without it '
+              'parse_file(tempfile.TemporaryFile()) is a failing input). Exceptions of io.open / Popen that are not EnvironmentErrors are modelled (EnvX) and proved to leave '
+              'unconverted; "every failure is the PybtexError for the name given" quantifies over EnvironmentErrors only. Recorded boundary (finding C17-empty-document-bom, C17_write_file_partial / _neg): for an EMPTY document written without any write '
               'call under a byte-order-mark codec to_bytes is the mark while the written file stays empty.')
